@@ -475,3 +475,36 @@ impl InFlight {
 pub fn reply_tag(words: &[&str]) -> Option<usize> {
 	words.get(3).and_then(|t| t.strip_prefix("for=")).and_then(|n| n.parse().ok())
 }
+
+/// Does the incoming text consist of an array with at least one response-shaped element?  The read task hands all
+/// responses of an array to the batch code together, so such an array either completes one pending batch or is
+/// refused as a whole (the connection is given up) — it can never pass without either, whatever else it carries.
+pub fn array_has_response(text: &str) -> bool {
+	match serde_json::from_str::<Value>(text) {
+		Ok(Value::Array(a)) => a.iter().any(|e| msg_kind(e) == MsgKind::Response),
+		_ => false,
+	}
+}
+
+/// A server push as a single object: subscription notification for `sid` (JSON text of the id) or for nobody, close
+/// notification, method notification with or without params.
+pub fn push_object(rng: &mut Rng, sids: &[String]) -> String {
+	let sid = if sids.is_empty() || rng.chance(1, 4) { "\"nobody\"".to_string() } else { rng.pick(sids).clone() };
+	match rng.below(6) {
+		0 | 1 => format!("{{\"jsonrpc\":\"2.0\",\"method\":\"sub\",\"params\":{{\"subscription\":{sid},\"result\":{}}}}}", rng.below(1000)),
+		2 => format!("{{\"jsonrpc\":\"2.0\",\"method\":\"sub\",\"params\":{{\"subscription\":{sid},\"error\":\"closed\"}}}}"),
+		3 => "{\"jsonrpc\":\"2.0\",\"method\":\"other\",\"params\":[1,2]}".to_string(),
+		4 => "{\"jsonrpc\":\"2.0\",\"method\":\"m\"}".to_string(),
+		_ => format!("{{\"jsonrpc\":\"2.0\",\"method\":\"sub\",\"params\":[{sid},{}]}}", rng.below(1000)),
+	}
+}
+
+/// `parts` (the elements of a reply array) with 1..3 server pushes inserted at random positions
+pub fn mix_pushes(rng: &mut Rng, mut parts: Vec<String>, sids: &[String]) -> Vec<String> {
+	for _ in 0..rng.range(1, 3) {
+		let pos = rng.below(parts.len() as u64 + 1) as usize;
+		let p = push_object(rng, sids);
+		parts.insert(pos, p);
+	}
+	parts
+}
